@@ -137,6 +137,12 @@ def run (d : DSt) (args : List Str) (impl : String) : DSt × String × String ×
       let s := failedSubscribe
       let out := s!"nil={s.nilCalls} pubs=0 listener=0"
       ({ typ := num t, s := s, started := true }, out, out, "startfail")
+    else if c = str "startstopped" then
+      -- the other way a subscription fails: the service of the resource has been shut down
+      -- (resource.go: `conn()` is nil); nil once, nothing published, nothing left behind
+      let s := failedSubscribe
+      let out := s!"nil={s.nilCalls} pubs=0 listener=0"
+      ({ typ := num t, s := s, started := true }, out, out, "startstopped")
     else bad
   | c :: p :: acts => runReq d c p acts impl
   | _ => bad
